@@ -12,7 +12,7 @@ import math
 from fractions import Fraction as Fr
 
 from .absint import Interp, Model, CTX
-from .absval import Undecided, Raised, Term, W, T, same, t_add, t_sub, t_mul, t_div, f_sqrt, f_abs
+from .absval import NAN, Undecided, Raised, Term, W, T, same, t_add, t_sub, t_mul, t_div, f_sqrt, f_abs
 from .core import AnalysisError, own_nodes, norm
 
 DESC = "cnvlib.descriptives"
@@ -55,8 +55,21 @@ def _weighs_all(x, what):
                       "so the estimate of a sample with repeated values is not the estimator's formula on that sample")
 
 
+def _pow2(x):
+    """a constant whose product / quotient with a float is exact (barring overflow): +-2^k"""
+    try:
+        f = Fr(x)
+    except (TypeError, ValueError):
+        return False
+    if f == 0:
+        return False
+    n, d = abs(f.numerator), f.denominator
+    return n & (n - 1) == 0 and d & (d - 1) == 0
+
+
 class TV:
     dedup = False                    # the array's values were de-duplicated (multiplicities lost)
+    rounded = False                  # went through an operation that rounds even for small-integer inputs (a true division by a data-derived value, a root)
 
     def __init__(self, trans="INV", deg=0, arr=False, kind="num", note="", nonneg=False, pct=None):
         self.trans, self.deg, self.arr, self.kind, self.note = trans, deg, arr, kind, note
@@ -90,13 +103,18 @@ class TV:
         raise Undecided(f"typing of {type(x).__name__} {x!r}")
 
     def el(self):
-        return TV(self.trans, self.deg, False, self.kind, nonneg=self.nonneg)
+        r = TV(self.trans, self.deg, False, self.kind, nonneg=self.nonneg)
+        r.rounded = self.rounded
+        return r
 
     # ---- interpreter hooks
     def abs_binop(self, op, other, reflected):
         r = self._binop(op, other, reflected)
         if isinstance(r, TV) and r.arr and (self.dedup or getattr(other, "dedup", False)):
             r.dedup = True
+        if isinstance(r, TV):
+            divisor = self if reflected else other
+            r.rounded = self.rounded or getattr(other, "rounded", False) or (isinstance(op, ast.Div) and not (isinstance(divisor, (int, float, Fr)) and _pow2(divisor)))
         return r
 
     def _binop(self, op, other, reflected):
@@ -159,6 +177,11 @@ class TV:
             return isinstance(op, ast.IsNot)
         if self.trans != o.trans:
             raise BadType("a location-type value is compared with a translation-invariant one (the outcome changes with c)")
+        tiny = isinstance(other, (int, float, Fr)) and not isinstance(other, bool) and 0 < other < Fr(1, 10 ** 9)
+        below = (isinstance(op, (ast.Lt, ast.LtE)) and not reflected) or (isinstance(op, (ast.Gt, ast.GtE)) and reflected)
+        if tiny and below and self.rounded:
+            raise BadType("an equality-within-epsilon test on a quantity that went through a rounding division: with equal weights and an even count the halves "
+                          "no longer meet the tolerance (sums of 1/n are not exact), so exact ties are missed and the tie value is not returned")
         return TV("INV", 0, self.arr or o.arr, "bool")
 
     def abs_truth(self):
@@ -175,10 +198,12 @@ class TV:
         if isinstance(k, TV):
             r = TV(self.trans, self.deg, k.arr, self.kind, nonneg=self.nonneg)
             r.dedup = self.dedup and k.arr
+            r.rounded = self.rounded
             return r
         if isinstance(k, slice):
             r = TV(self.trans, self.deg, True, self.kind, nonneg=self.nonneg)
             r.dedup = self.dedup
+            r.rounded = self.rounded
             return r
         if isinstance(k, int):
             return self.el()
@@ -194,7 +219,9 @@ class TV:
 
     # ---- ndarray / Series methods (called through the interpreter's generic python-attribute fallback)
     def _red(self):
-        return TV(self.trans, self.deg, False, self.kind, nonneg=self.nonneg)
+        r = TV(self.trans, self.deg, False, self.kind, nonneg=self.nonneg)
+        r.rounded = self.rounded
+        return r
 
     def mean(self, *a, **k):
         _weighs_all(self, "a mean")
@@ -224,12 +251,16 @@ class TV:
             raise BadType("sum of location-type values (moves by n*c)")
         if self.kind == "bool":
             return TV("INV", 0, False, "idx")
-        return TV("INV", self.deg, False, nonneg=self.nonneg)
+        r = TV("INV", self.deg, False, nonneg=self.nonneg)
+        r.rounded = self.rounded
+        return r
 
     def cumsum(self, *a, **k):
         if self.trans == "LOC":
             raise BadType("cumulative sum of location-type values")
-        return TV("INV", self.deg, True, nonneg=self.nonneg)
+        r = TV("INV", self.deg, True, nonneg=self.nonneg)
+        r.rounded = self.rounded
+        return r
 
     def any(self, *a, **k):
         return TV("INV", 0, False, "bool")
@@ -319,7 +350,9 @@ def typing_model(role_of):
         x = TV.of(x)
         if x.trans == "LOC":
             raise BadType("abs() of a location-type value")
-        return TV("INV", x.deg, x.arr, nonneg=True)
+        r = TV("INV", x.deg, x.arr, nonneg=True)
+        r.rounded = x.rounded
+        return r
 
     def b_minmax(*args, _which="max", **k):
         vals = [TV.of(v) for v in (args[0] if len(args) == 1 and isinstance(args[0], (list, tuple)) else args)]
@@ -350,6 +383,17 @@ def typing_model(role_of):
     m.ext["np.abs"] = lambda it, x, *a, **k: b_abs(x)
     m.ext["np.absolute"] = m.ext["np.abs"]
     m.ext["np.isnan"] = lambda it, x: TV("INV", 0, TV.of(x).arr, "bool")
+
+    def isclose(it, a, b, *rest, **k):
+        a, b = TV.of(a), TV.of(b)
+        if "LOC" in (a.trans, b.trans):
+            raise BadType("np.isclose of location-type values: the relative tolerance is taken from the magnitude of the value, which moves with c "
+                          "(data with a small spread far from 0 is declared constant)")
+        if a.deg not in (0, "ANY") or b.deg not in (0, "ANY"):
+            raise BadType("np.isclose of scale-dependent values: the absolute tolerance (1e-8) does not scale with the data")
+        return TV("INV", 0, a.arr or b.arr, "bool")
+    m.ext["np.isclose"] = isclose
+    m.ext["math.isclose"] = isclose
 
     def diff(it, x, *a, **k):
         was_sorted = getattr(x, "is_sorted", False)
@@ -746,6 +790,15 @@ def const_model():
         raise Undecided("gaussian_kde on non-constant data")
     m.ext["scipy.stats.gaussian_kde"] = kde
     m.ext["np.pi"] = None
+
+    def isclose(it, a, b, rtol=Fr(1, 10 ** 5), atol=Fr(1, 10 ** 8), **k):
+        if same(a, b):
+            return True
+        ta, tb_ = T(a), T(b)
+        if ta.is_const() and tb_.is_const():
+            return abs(ta.cval() - tb_.cval()) <= Fr(atol) + Fr(rtol) * abs(tb_.cval())
+        raise Undecided("np.isclose of symbolic values that are not identical")
+    m.ext["np.isclose"] = isclose
     return m
 
 
@@ -794,11 +847,11 @@ def check_constant(chk, prog, LOCATION, SCALE, floor=11):
             finally:
                 CTX.atoms = old
             if size in ("empty", "all NaN"):
-                if out is not None:
+                if not (out is None or out is NAN):
                     problems.append(f"{size}: returns {out!r}, expected NaN (no data)")
                 continue
             want = k if name in LOCATION else 0
-            if out is None or not same(out, want):
+            if out is None or out is NAN or not same(out, want):
                 problems.append(f"n={size}: returns {out!r}, expected {'the common value k' if name in LOCATION else '0'}")
         n += 1
         chk.decide(not problems, "constant-data", f"{name}: {'k' if name in LOCATION else '0'} on constant data (n = 3, 2, 1, one value among NaN); NaN for no data", f"{fi.qn}::constant data", fi.loc(),
